@@ -206,6 +206,18 @@ def run(tier, seed, only=None):
     from props import c10
 
     c10.states_group(rep, tier, timeout)
+    # ... and mass / cg / fuel volume are computed from the set-up group's own nodes, areas and masses
+    from props import groups
+    from openaerostruct.structures.spatial_beam_setup import SpatialBeamSetup
+    from openaerostruct.integration.aerostruct_groups import AerostructGeometry
+
+    fam = "every component of the group works on the group's own variables of the same name"
+    st = K.surface(2, 3, True)
+    st.update({"thickness_cp": np.array([0.1, 0.2]), "twist_cp": np.zeros(2), "radius_cp": np.array([0.3, 0.4])})
+    sw = K.surface(2, 3, True, fem_model_type="wingbox")
+    groups.wiring_check(rep, lambda: SpatialBeamSetup(surface=st), "SpatialBeamSetup(tube)", fam, timeout)
+    groups.wiring_check(rep, lambda: SpatialBeamSetup(surface=sw), "SpatialBeamSetup(wingbox)", fam, timeout)
+    groups.wiring_check(rep, lambda: AerostructGeometry(surface=st), "AerostructGeometry(tube)", fam, timeout)
     rep.bounds = {"ny": [c[1] for c in cfgs(tier)], "point_masses": "1 (quick), 1-2 (thorough)"}
     rep.assumptions = ["real arithmetic", "g = 9.80665", "moment reference point p symbolic"]
     return rep.finish("C16: mass / cg / load-sum / moment-sum identities against first-principles sums on symbolic nodes, areas, masses")
